@@ -1,5 +1,6 @@
 import OpusModel.Kernels
 import OpusModel.KernelsNsq
+import OpusModel.KernelsPvq
 import OpusModel.Gen.DispatchTables
 import Driver.Util
 /-
@@ -30,6 +31,9 @@ import Driver.Util
     vadnrg <vs> <xs>                     VAD sub-frame energy loop (c / sse4_1)      -> v=<sumSquared>
     invvarq <b> <Q> / divvarq <a> <b> <Q>   silk_INVERSE32_varQ / silk_DIV32_varQ    -> value
     sarround <vs> <a> <b> <bits>         silk_sar_round_smulww (avx2) / the C expression (c) -> v=value
+    pvq <c|sse2> <N> <K> <proj> <picks> <signs>   the PVQ search bookkeeping (OpusModel/KernelsPvq.lean) driven by the
+                                         pre-search counts and arg-max positions RECORDED in the compiled kernel
+                                         -> iy=<list> yy=<int>   (contract-violated:… if the recording breaks a contract)
     lane <op> <vs> <a> <b> <c>           one lane of the NSQ_del_dec_avx2.c helpers (avx2) / the C macro (c):
                                          addsat a b, subsat a b, limit num l1 l2, smulww a b, smulwb a b,
                                          srairound a bits, rand seed                  -> v=value
@@ -263,6 +267,23 @@ def handle : List String → String
           if v = "avx2" then some s!"avx2={x}" else if v = "c" then some s!"c={y}" else none)
         if out.any (·.isNone) then "bad-op" else " ".intercalate (out.filterMap id)
     | _, _, _ => "bad-op"
+  | ["pvq", v, n, k, proj, picks, signs] =>
+    match parseNat n, parseNat k, parseNatList proj, parseNatList picks, parseNatList signs with
+    | some n, some k, some proj, some picks, some signs =>
+      if v != "c" && v != "sse2" then "bad-op"
+      else if n = 0 || proj.length != n || signs.length != n then "contract-violated:lengths"
+      else if Pvq.sum proj > k then "contract-violated:pre-search-allocated-more-than-K"
+      else if picks.any (· ≥ n) then "contract-violated:arg-max-outside-the-band"
+      else
+        let s1 := Pvq.dumpStep n { iy := proj, yy := Pvq.sumSq proj, left := k - Pvq.sum proj }
+        if picks.length != s1.left then "contract-violated:number-of-greedy-iterations"
+        else
+          let pa := picks.toArray
+          let pick := fun (s : Pvq.St) => pa.getD (pa.size - s.left) 0
+          let sg := signs.map (· != 0)
+          let r := if v = "c" then Pvq.searchC n k proj pick sg else Pvq.searchSse2 n k proj pick sg
+          s!"iy={intList r.1} yy={r.2}"
+    | _, _, _, _, _ => "bad-op"
   | ["vadnrg", vs, xs] =>
     match parseIntList xs with
     | some x =>
